@@ -60,6 +60,9 @@ pub struct Ctx<S: Subj> {
   subject: S,
   log: Vec<(usize, Notif)>,
   handles: Vec<Option<S::Handle>>,
+  /// case field `greetpeek`: a greeted subscriber reads the current value back (through a clone) from inside its
+  /// greeting callback — a pure read, no model event; it must answer the greeted value
+  greet_peek: bool,
 }
 
 pub struct Probe<S: Subj> {
@@ -92,9 +95,19 @@ fn unsubscribe_one<S: Subj>(ctx: &Arc<Mutex<Ctx<S>>>, t: usize) {
 
 impl<S: Subj> Probe<S> {
   fn on_next(&mut self, v: Val) {
-    self.ctx.lock().unwrap().log.push((self.id, Notif::Next(v)));
+    self.ctx.lock().unwrap().log.push((self.id, Notif::Next(v.clone())));
     if self.greet_pending {
       self.greet_pending = false;
+      let reader = {
+        let c = self.ctx.lock().unwrap();
+        if c.greet_peek { Some(c.subject.clone()) } else { None }
+      };
+      if let Some(r) = reader {
+        let p = r.peek_val();
+        if p != Some(v) {
+          panic!("greeted with one value, peek() inside the greeting answers another");
+        }
+      }
       return;
     }
     match self.script.pop_front().unwrap_or(Act::Nop) {
@@ -275,7 +288,12 @@ impl_behavior!(SubjectThreads<Val, i64>, SubscriberThreads, true);
 fn run_generic<S: Subj>(case: &Case, out: &mut Out) {
   let init = if case.has("init") { Val::parse(&case.field("init")[0]) } else { Val::Int(0) };
   let root = S::create(init);
-  let ctx = Arc::new(Mutex::new(Ctx { subject: root.clone(), log: vec![], handles: vec![] }));
+  let ctx = Arc::new(Mutex::new(Ctx {
+    subject: root.clone(),
+    log: vec![],
+    handles: vec![],
+    greet_peek: case.has("greetpeek"),
+  }));
   let mut clones: Vec<S> = vec![root];
   for (k, ev) in case.events.iter().enumerate() {
     out.cur = k;
